@@ -84,6 +84,34 @@ def run():
         if all(x == -1 for x in g):
             continue
         cases.append(call(tree, g, A, rng.choice([None] + list(range(A))), rng))
+    # wide trees: a node with hundreds of children (counters per allele must not wrap), as a star and as a forest of isolated samples
+    wide = []
+    for _ in range(6 if QUICK else 60):
+        n = rng.choice([257, 300, 300, 320, 600])
+        A = rng.randint(2, 3)
+        shape = rng.choice(["star", "forest"])
+        t = tskit.TableCollection(1)
+        for _j in range(n):
+            t.nodes.add_row(flags=1, time=0)
+        if shape == "star":
+            r_ = t.nodes.add_row(time=1)
+            for c_ in range(n):
+                t.edges.add_row(0, 1, r_, c_)
+        tree = t.tree_sequence().first()
+        # a clear majority allele whose count exceeds 255
+        maj = rng.randrange(A)
+        g = [maj if rng.random() < 0.88 else rng.choice([x for x in range(A) if x != maj]) for _j in range(n)]
+        fixed = rng.choice([None, None] + list(range(A)))
+        alleles = ["a%d" % i for i in range(A)]
+        kw = {} if fixed is None else {"ancestral_state": fixed}
+        anc, muts = tree.map_mutations(np.array(g, dtype=np.int8), alleles, **kw)
+        state = {}
+        for m in muts:
+            state[int(m.node)] = alleles.index(m.derived_state)
+        top = state.get(n, alleles.index(anc)) if shape == "star" else alleles.index(anc)
+        rep = all(state.get(u, top) == g[u] for u in range(n))
+        wide.append(dict(shape=shape, counts=[sum(1 for x in g if x == a_) for a_ in range(A)], fixed=-1 if fixed is None else fixed,
+                         anc=alleles.index(anc), nmuts=len(muts), reproduces=1 if rep else 0, n=n))
     # a few many-allele calls (up to 64 alleles): only reproduction/minimality by a simple lower bound is not
     # decidable by brute force in TLC; they are checked for reproduction with A as given on star trees
     corrupted = []
@@ -102,6 +130,20 @@ def run():
     chk.extra["binding_selftest"] = dict(corrupted=len(corrupted), rejected=len(corrupted) - acc)
     if acc > 1:
         raise common.MachineryError("Trace_Parsimony accepted %d corrupted traces" % acc)
+    # wide cases: binding self-test (one more mutation than the closed form), then validation
+    wbad = [dict(w, nmuts=w["nmuts"] + 1) for w in wide[:2]]
+    wv, _ = common.tlc_validate("Trace_Parsimony", wbad, chunks=1)
+    if any(not wv[d["id"]] for d in wbad):
+        raise common.MachineryError("Trace_Parsimony accepted a corrupted wide-tree case")
+    wverd, wst = common.tlc_validate("Trace_Parsimony", wide, chunks=2)
+    chk.add_tlc(wst)
+    for w in wide:
+        chk.note_case(dict(wide=[w["shape"], w["n"], w["counts"], w["fixed"]]), w["nmuts"] >= 1)
+        if wverd[w["id"]]:
+            chk.violation("trace rejected by Trace_Parsimony: %s on a %s of %d tips" % (sorted(wverd[w["id"]]), w["shape"], w["n"]), w)
+        else:
+            chk.traces += 1
+    chk.extra["wide_tree_cases"] = len(wide)
     verdicts, st = common.tlc_validate("Trace_Parsimony", cases)
     chk.add_tlc(st)
     for c in cases:
